@@ -34,6 +34,7 @@ where
     one::<A>(c);
 }
 macro_rules! runs { ($c:expr; $($t:ident)*) => { $( light::<$t>($c); )* } }
+macro_rules! aliases { ($c:expr; $($t:ident)*) => { $( alias::<$t>($c, stringify!($t), <$t>::INT_NBITS, <$t>::FRAC_NBITS); )* } }
 
 fn main() {
     let o = opts();
@@ -50,5 +51,9 @@ fn main() {
     };
     let _ = &c.replay;
     for_all_layouts!(runs!(&mut c;));
+    if c.on("codec") {
+        // the aliases the properties quantify over name the layout they spell (C10: width / 8 bytes)
+        for_all_layouts!(aliases!(&mut c;));
+    }
     c.wr.flush();
 }
